@@ -10,7 +10,8 @@ WATCH = {"Spectra.__call__", "Taus.__call__", "EAS.__call__", "EAS.altDec", "EAS
          "calculate_snr", "RegionGeom.__call__", "RegionGeomToO.__call__", "RegionGeom.mcintegral",
          "RegionGeomToO.mcintegral", "CloudTopHeight.__call__", "CphotAng.__call__", "CphotAng.run",
          "RegionGeom.find_lat_long_along_traj", "RegionGeomToO.find_lat_long_along_traj",
-         "Taus.tau_energy", "Taus.tau_exit_prob", "init"}
+         "Taus.tau_energy", "Taus.tau_exit_prob", "init",
+         "nss_result_store.<locals>.decorator_store.<locals>.store_f"}
 
 
 class ComputeGraph:
@@ -87,6 +88,18 @@ class ComputeGraph:
         if v.op == "Phi" and self.is_mode_cond(v.args[0]):
             return v.args[1], v.args[2]
         return None
+
+    def col_matches(self, a, name) -> bool:
+        """is value a the stored column `name` (geometry columns: per mode)?"""
+        I, g = self.I, self.I.g
+        a = I.res(a, self.st)
+        if g.same(a, I.res(self.column(name), self.st)):
+            return True
+        sp = self.split_mode(a)
+        if sp is not None:
+            return g.same(sp[0], I.res(self.column_for_mode(name, True), self.st)) and \
+                g.same(sp[1], I.res(self.column_for_mode(name, False), self.st))
+        return False
 
     def calls(self, qualname):
         return [c for c in self.I.call_log if c[0].qualname == qualname]
